@@ -28,7 +28,7 @@ META = {
                    "heights on both sides of era boundaries; cumulative supply bound by induction (z3 arithmetic + real genesis base case).",
     "technique": "CrossHair symbolic execution of CoinState.add_block with symbolic amounts + z3 integer arithmetic for the cumulative schedule",
     "bounds": "<= 2 ordinary transactions x <= 2 inputs x <= 2 outputs, <= 2 reward outputs, amounts over [0, 2^64), heights "
-              "{2, I-1, I, I+1, 2I, 29I, 64I}",
+              "{2, I-1, I, I+1, 2I, 29I, 64I} (quick) / both sides of every era boundary k*I, k = 1..31, 63, 64 (thorough)",
     "outside": "larger blocks; heights other than the listed ones rely on C16's era lemma for the subsidy function itself",
     "stubs": ["PyMap", "PyBytesIO", "ideal signatures", "tagged-identity hashes", "chain-sample oracle", "checkpoint horizon = height-1"],
     "assumptions": ["hashes collision-free (distinct transactions have distinct ids)", "every value in the parent's unspent map is in (0, MAX]"],
@@ -172,7 +172,16 @@ def obligations(tier: str, known: List[str]) -> List[Ob]:
     thorough = tier == "thorough"
     obs: List[Ob] = []
     T = 1500 if thorough else 600
-    for h in (HEIGHTS_T if thorough else HEIGHTS_Q):
+    heights = list(HEIGHTS_Q)
+    if thorough:
+        # both sides of EVERY era boundary up to the exhaustion of the subsidy and the 64-halvings cut-off
+        heights = [2]
+        for k in list(range(1, 32)) + [63, 64]:
+            for d in (-1, 0, 1):
+                hh = k * HALVING + d
+                if hh % 10080 != 0 and hh not in heights:
+                    heights.append(hh)
+    for h in heights:
         for shape in SHAPES:
             if not thorough and h != 2 and shape in ("1tx-2in-2out", "2tx", "1tx-1in-2out-2rewards"):
                 continue
